@@ -110,7 +110,7 @@ def run(tier, seed, only=None):
     cfgs = ["g-san"] if tier == "quick" else ["g-san", "c-san"]
     if only:
         cfgs = [only["config"]]
-    env = {"VERIF_SEED": str(seed), "VERIF_NFLOAT": "3000" if tier == "quick" else "60000", "VERIF_TRAP_RATION": "1000000"}
+    env = {"VERIF_SEED": str(seed), "VERIF_NFLOAT": "12000" if tier == "quick" else "200000", "VERIF_TRAP_RATION": "1000000"}
     stm = [(d, '%s("%s", %d, %d);' % (c, d, i, r)) for i, (d, c, r) in enumerate(ks)]
     jobs = []
     for cfg in cfgs:
